@@ -382,6 +382,32 @@ func (P *Program) guardsOf(fn *ssa.Function) *funcGuards {
 				if bo, isB := ifi.Cond.(*ssa.BinOp); isB && bo.Op == token.LSS && fullIndexLoopBound(bo.X) != nil {
 					lits[i].Kind = "rangeloop" // for i := 0; i < len(x); i++
 				}
+				// the rotated form (`for i := range len(x)`): the test of the value that enters the loop body
+				if bo, isB := ifi.Cond.(*ssa.BinOp); isB && bo.Op == token.LSS && len(b.Succs) == 2 {
+					for _, ins := range b.Succs[0].Instrs {
+						ph, isPhi := ins.(*ssa.Phi)
+						if !isPhi {
+							break
+						}
+						if fullIndexLoopBound(ph) == nil {
+							continue
+						}
+						for pi, pred := range b.Succs[0].Preds {
+							if pred != b || pi >= len(ph.Edges) {
+								continue
+							}
+							in := ph.Edges[pi]
+							same := in == bo.X
+							if cx, isC := bo.X.(*ssa.Const); isC && !same {
+								ce, isCE := in.(*ssa.Const)
+								same = isCE && cx.Value != nil && ce.Value != nil && cx.Value.ExactString() == ce.Value.ExactString()
+							}
+							if same {
+								lits[i].Kind = "rangeloop"
+							}
+						}
+					}
+				}
 				if isJumpCond(ifi.Cond) {
 					lits[i].Kind = "rangefunc"
 				}
